@@ -1,7 +1,7 @@
 SPECIFICATION Spec
-CONSTANT Configs <- ConfigsFull
-CONSTANT RandVals <- RandValsFull
-CONSTANT K = 2
+CONSTANT Configs <- ConfigsBytes
+CONSTANT RandVals <- RandValsBytes
+CONSTANT K = 1
 CONSTANT SkipSame = "no"
 CONSTANT defaultInitValue = 0
 INVARIANT Export
